@@ -1,8 +1,12 @@
 (* C08 — property theorems (statements only; proofs in ProofsOrder / ProofsLoad / ProofsTotal /
    ProofsTok / ProofsB32 / ProofsMain). H is SHA-1 (abstract).
-   [load H b u]: DownloadConstructor::initialize + torrent::download_add on the torrent object b
+   [load H pol b u]: DownloadConstructor::initialize + torrent::download_add on the torrent object b
    whose "info" dictionary carries flag_unordered = u, for the code after the fix commits
-   3f25386, ad1f0db, 732629d. *)
+   3f25386, ad1f0db, 732629d.
+   pol : policy = what the property leaves open (accepted "piece length" range, whether a foreign
+   magnet xt topic invalidates the link); it is PROBED from the compiled implementation on every run
+   and every theorem holds for every policy (load_total under the side condition policy_ok, which
+   the run checks on the probed policy). *)
 From Coq Require Import List NArith ZArith Bool.
 From LTV Require Import Common.Bytes.
 From LTV.C07 Require Import Model.
@@ -10,6 +14,7 @@ From LTV.C08 Require Import Model ProofsOrder ProofsLoad ProofsTotal ProofsTok P
 Import ListNotations.
 Local Open Scope N_scope.
 
+(* today's policy (1 KiB < piece length <= 512 MiB, foreign xt rejected) satisfies policy_ok *)
 Theorem params_ok_now : ProofsMain.params_ok = true.
 Proof. exact ProofsMain.params_ok_now. Qed.
 Print Assumptions params_ok_now.
@@ -17,14 +22,14 @@ Print Assumptions params_ok_now.
 (* no input crashes the loader: never a dereference outside a checked range (LFault), never an
    internal_error (EInternal: FileList::initialize chunk size 0, FileList::split size mismatch,
    verify_file_list, tracker::Manager::add_controller zero hash), for ALL objects and flags *)
-Theorem load_total : forall (H : bytes -> bytes) b u,
-  (exists d, load H b u = LOk d) \/ load H b u = LErr EInput \/ load H b u = LErr EBencode.
+Theorem load_total : forall (H : bytes -> bytes) pol b u, policy_ok pol = true ->
+  (exists d, load H pol b u = LOk d) \/ load H pol b u = LErr EInput \/ load H pol b u = LErr EBencode.
 Proof. exact ProofsTotal.load_total_cases. Qed.
 Print Assumptions load_total.
 
 (* fuel sufficiency of the magnet loop (part of load_total, stated on its own) *)
-Theorem magnet_loop_total : forall fuel pos hash tr, (length pos < fuel)%nat ->
-  is_bad (magnet_loop fuel pos hash tr) = false.
+Theorem magnet_loop_total : forall rf fuel pos hash tr, (length pos < fuel)%nat ->
+  is_bad (magnet_loop rf fuel pos hash tr) = false.
 Proof. exact ProofsTotal.magnet_loop_nb. Qed.
 Print Assumptions magnet_loop_total.
 
@@ -34,8 +39,8 @@ Theorem adjacent_check_sound : forall l : list path,
 Proof. exact ProofsOrder.adjacent_check_sound. Qed.
 Print Assumptions adjacent_check_sound.
 
-Theorem paths_contained : forall (H : bytes -> bytes) b u d root f,
-  load H b u = LOk d -> In f (d_files d) ->
+Theorem paths_contained : forall (H : bytes -> bytes) pol b u d root f,
+  load H pol b u = LOk d -> In f (d_files d) ->
   frozen_path (set_root_dir root) f = set_root_dir root ++ path_as_string (f_path f) /\
   strictly_inside (f_path f) /\ strictly_inside [d_name d].
 Proof. exact ProofsMain.paths_contained. Qed.
@@ -43,27 +48,27 @@ Print Assumptions paths_contained.
 
 (* tokenisation: the kernel walks the frozen path STRING as the root's components followed by
    exactly the file's components *)
-Theorem frozen_tokens : forall (H : bytes -> bytes) b u d root f,
-  load H b u = LOk d -> In f (d_files d) ->
+Theorem frozen_tokens : forall (H : bytes -> bytes) pol b u d root f,
+  load H pol b u = LOk d -> In f (d_files d) ->
   tokens (frozen_path (set_root_dir root) f) = tokens (set_root_dir root) ++ f_path f /\
   mem_byte 0 (path_as_string (f_path f)) = false.
 Proof. exact ProofsMain.frozen_tokens. Qed.
 Print Assumptions frozen_tokens.
 
-Theorem no_dup_no_prefix : forall (H : bytes -> bytes) b u d,
-  load H b u = LOk d -> no_prefix (map f_path (d_files d)).
+Theorem no_dup_no_prefix : forall (H : bytes -> bytes) pol b u d,
+  load H pol b u = LOk d -> no_prefix (map f_path (d_files d)).
 Proof. exact ProofsMain.no_dup_no_prefix. Qed.
 Print Assumptions no_dup_no_prefix.
 
-Theorem sizes_sum : forall (H : bytes -> bytes) b u d,
-  load H b u = LOk d ->
+Theorem sizes_sum : forall (H : bytes -> bytes) pol b u d,
+  load H pol b u = LOk d ->
   offsets_from 0 (d_files d) /\ sum_size (d_files d) = d_size d /\
   (int64_ok b = true -> d_size d < two63) /\ (d_meta d = false -> d_size d <> 0).
 Proof. exact ProofsMain.sizes_sum. Qed.
 Print Assumptions sizes_sum.
 
-Theorem piece_count_matches : forall (H : bytes -> bytes) b u d,
-  int64_ok b = true -> load H b u = LOk d ->
+Theorem piece_count_matches : forall (H : bytes -> bytes) pol b u d,
+  int64_ok b = true -> load H pol b u = LOk d ->
   d_chunk_size d <> 0 /\ d_size d < two63 /\
   d_chunks d = (d_size d + d_chunk_size d - 1) / d_chunk_size d /\
   d_chunks d < two32 /\
@@ -71,8 +76,8 @@ Theorem piece_count_matches : forall (H : bytes -> bytes) b u d,
 Proof. exact ProofsMain.piece_count_matches. Qed.
 Print Assumptions piece_count_matches.
 
-Theorem file_ranges_exact : forall (H : bytes -> bytes) b u d f,
-  int64_ok b = true -> load H b u = LOk d -> In f (d_files d) ->
+Theorem file_ranges_exact : forall (H : bytes -> bytes) pol b u d f,
+  int64_ok b = true -> load H pol b u = LOk d -> In f (d_files d) ->
   f_r1 f = f_offset f / d_chunk_size d /\
   f_r2 f = (if f_size f =? 0 then f_offset f / d_chunk_size d
             else (f_offset f + f_size f + d_chunk_size d - 1) / d_chunk_size d) /\
@@ -80,21 +85,21 @@ Theorem file_ranges_exact : forall (H : bytes -> bytes) b u d f,
 Proof. exact ProofsMain.file_ranges_exact. Qed.
 Print Assumptions file_ranges_exact.
 
-Theorem infohash_canonical : forall (H : bytes -> bytes) b u d m,
-  load H b u = LOk d -> as_map b = LOk m -> has_key_map m k_info = true ->
+Theorem infohash_canonical : forall (H : bytes -> bytes) pol b u d m,
+  load H pol b u = LOk d -> as_map b = LOk m -> has_key_map m k_info = true ->
   exists info_v, get_key m k_info = LOk info_v /\
     (d_meta d = false -> d_infohash d = H (enc info_v)) /\
     (d_meta d = true -> d_infohash d = d_pieces d).
 Proof. exact ProofsMain.infohash_canonical. Qed.
 Print Assumptions infohash_canonical.
 
-Theorem unordered_rejected : forall (H : bytes -> bytes) b d m,
-  as_map b = LOk m -> has_key_map m k_info = true -> load H b true <> LOk d.
+Theorem unordered_rejected : forall (H : bytes -> bytes) pol b d m,
+  as_map b = LOk m -> has_key_map m k_info = true -> load H pol b true <> LOk d.
 Proof. exact ProofsMain.unordered_rejected. Qed.
 Print Assumptions unordered_rejected.
 
-Theorem infohash_never_zero : forall (H : bytes -> bytes) b u d,
-  load H b u = LOk d -> d_infohash d <> zero_hash.
+Theorem infohash_never_zero : forall (H : bytes -> bytes) pol b u d,
+  load H pol b u = LOk d -> d_infohash d <> zero_hash.
 Proof. exact ProofsMain.infohash_never_zero. Qed.
 Print Assumptions infohash_never_zero.
 
@@ -137,8 +142,8 @@ Theorem decode_f_flags_inherited : forall l v rest, decode_f l = Ok v rest ->
 Proof. exact ProofsDecode.decode_f_flags_inherited. Qed.
 Print Assumptions decode_f_flags_inherited.
 
-Theorem piece_count_matches_bytes : forall (H : bytes -> bytes) s d,
-  load_bytes H s = Some (LOk d) ->
+Theorem piece_count_matches_bytes : forall (H : bytes -> bytes) pol s d,
+  load_bytes H pol s = Some (LOk d) ->
   d_chunk_size d <> 0 /\ d_size d < two63 /\
   d_chunks d = (d_size d + d_chunk_size d - 1) / d_chunk_size d /\
   d_chunks d < two32 /\
@@ -146,8 +151,8 @@ Theorem piece_count_matches_bytes : forall (H : bytes -> bytes) s d,
 Proof. exact ProofsMain.piece_count_matches_bytes. Qed.
 Print Assumptions piece_count_matches_bytes.
 
-Theorem sizes_sum_bytes : forall (H : bytes -> bytes) s d,
-  load_bytes H s = Some (LOk d) ->
+Theorem sizes_sum_bytes : forall (H : bytes -> bytes) pol s d,
+  load_bytes H pol s = Some (LOk d) ->
   offsets_from 0 (d_files d) /\ sum_size (d_files d) = d_size d /\ d_size d < two63 /\
   (d_meta d = false -> d_size d <> 0).
 Proof. exact ProofsMain.sizes_sum_bytes. Qed.
@@ -155,20 +160,20 @@ Print Assumptions sizes_sum_bytes.
 
 (* an info dictionary unordered ANYWHERE inside is rejected; what is outside info is irrelevant
    (load_bytes passes only info's own flag) *)
-Theorem unordered_rejected_bytes : forall (H : bytes -> bytes) s m u rest im iu d,
+Theorem unordered_rejected_bytes : forall (H : bytes -> bytes) pol s m u rest im iu d,
   decode_f s = Ok (FMap m u) rest ->
   flookup k_info m = Some (FMap im iu) ->
   any_flag (FMap im iu) = true ->
-  load_bytes H s <> Some (LOk d).
+  load_bytes H pol s <> Some (LOk d).
 Proof. exact ProofsMain.unordered_rejected_bytes. Qed.
 Print Assumptions unordered_rejected_bytes.
 
-Theorem load_total_bytes : forall (H : bytes -> bytes) s r,
-  load_bytes H s = Some r -> (exists d, r = LOk d) \/ r = LErr EInput \/ r = LErr EBencode.
+Theorem load_total_bytes : forall (H : bytes -> bytes) pol s r, policy_ok pol = true ->
+  load_bytes H pol s = Some r -> (exists d, r = LOk d) \/ r = LErr EInput \/ r = LErr EBencode.
 Proof. exact ProofsMain.load_total_bytes. Qed.
 Print Assumptions load_total_bytes.
 
 (* the branch-coverage instrumentation of the model's magnet parser does not change its results *)
-Theorem parse_magnet_hash_t_erase : forall uri, fst (parse_magnet_hash_t uri) = parse_magnet_hash uri.
+Theorem parse_magnet_hash_t_erase : forall rf uri, fst (parse_magnet_hash_t rf uri) = parse_magnet_hash rf uri.
 Proof. exact ProofsTrace.parse_magnet_hash_t_erase. Qed.
 Print Assumptions parse_magnet_hash_t_erase.
